@@ -195,6 +195,28 @@ func ruleR11_5(w *World, r *Report) {
 			if isMethod(calleeObj(call), pErrors, "ErrorCode", "New") {
 				continue // an error being constructed, returned as it is
 			}
+			// "return f()": the error is handed to the caller as it is
+			direct := false
+			for _, ref := range realRefs(ev) {
+				if ret, isRet := ref.(*ssa.Return); isRet && len(ret.Results) > 0 && stripIface(ret.Results[len(ret.Results)-1]) == stripIface(ev) {
+					direct = true
+				}
+				// the same through the result cell a deferred call forces: store cell <- f(); return *cell
+				if st, isSt := ref.(*ssa.Store); isSt {
+					if _, isAlloc := st.Addr.(*ssa.Alloc); isAlloc && stripIface(st.Val) == stripIface(ev) {
+						b := st.Block()
+						if ret, isRet := b.Instrs[len(b.Instrs)-1].(*ssa.Return); isRet && len(ret.Results) > 0 {
+							if ld, isLd := ret.Results[len(ret.Results)-1].(*ssa.UnOp); isLd && ld.X == st.Addr {
+								direct = true
+							}
+						}
+					}
+				}
+			}
+			if direct && len(realRefs(ev)) == 1 {
+				r.OK(cons, u.Pos(call.Pos()), "returned to the caller as it is")
+				continue
+			}
 			ok2, detail := errorEdgeReturns(call.Parent(), ev)
 			r.Check(ok2, cons, u.Pos(call.Pos()), detail, detail)
 		}
@@ -301,6 +323,15 @@ func ruleR13_4(w *World, r *Report) {
 			good = good && absent
 		}
 		r.Check(good, "DatatypeManager.SubscribeOrCreate/register once", u.Pos(mu.Pos()), "stored only when absent", "a datatype is stored under a key that may already be registered: the registered datatype is orphaned (never synced again) and the key is reused with another DUID or type")
+		// the datatype is registered before anything can start its first exchange: in realtime mode SubscribeOrCreate on
+		// the datatype delivers in a background goroutine, whose response is looked up in dataMap
+		late := ""
+		for _, c := range callsIn(fn) {
+			if calleeName(c) == "SubscribeOrCreate" && reachableFrom(c.(ssa.Instruction), mu) {
+				late = calleeName(c)
+			}
+		}
+		r.Check(late == "", "DatatypeManager.SubscribeOrCreate/registered before the first exchange can start", u.Pos(mu.Pos()), "dataMap store precedes datatype.SubscribeOrCreate", "the datatype is registered only after "+late+" on the datatype, which (realtime) starts the first push-pull in the background: a response that arrives before the registration finds no datatype and is dropped; a subscriber stays DUE_TO_SUBSCRIBE for ever")
 	})
 	if n == 0 {
 		r.Lost("DatatypeManager.SubscribeOrCreate: store into dataMap")
